@@ -26,9 +26,11 @@
                                        production of the grammar it will be checked against; sym* = look-aheads
      [21; X; nullable; sym*]           FIRST certificate entry for nonterminal X
      [22; gslot; slot]                 -> [22; gslot; slot; check_complete]   (and clears the FIRST certificate)
+     [23; X; rank]                     productivity certificate entry for nonterminal X
+     [24; gslot; slot]                 -> [24; gslot; slot; check_early; check_productive]  (and clears the ranks)
    Anything else (or a reference to an undefined slot/production)  -> [0; tag]. *)
 From Coq Require Import Arith NArith PArith List Bool FMapPositive.
-Require Import EmbossV.LR.Driver EmbossV.LR.Sound EmbossV.LR.Bisim EmbossV.LR.Complete.
+Require Import EmbossV.LR.Driver EmbossV.LR.Sound EmbossV.LR.Bisim EmbossV.LR.Complete EmbossV.LR.Early.
 Import ListNotations.
 Open Scope N_scope.
 
@@ -42,6 +44,7 @@ Record xstate := {
   x_cert : cert;
   x_items : icert;
   x_first : fcert;
+  x_rank : pcert;
   x_slots : nmap (tables * cert * icert);
   x_grams : nmap grammar;
   x_rel : rel;
@@ -50,39 +53,43 @@ Record xstate := {
 
 Definition x_init : xstate :=
   {| x_ptab := nempty; x_slot := 0; x_cur := empty_tables 0 false; x_cert := nempty; x_items := nempty;
-     x_first := nempty; x_slots := nempty; x_grams := nempty; x_rel := nempty; x_out := [] |}.
+     x_first := nempty; x_rank := nempty; x_slots := nempty; x_grams := nempty; x_rel := nempty; x_out := [] |}.
 
 Definition emit (s : xstate) (l : list N) : xstate :=
   {| x_ptab := x_ptab s; x_slot := x_slot s; x_cur := x_cur s; x_cert := x_cert s; x_items := x_items s;
-     x_first := x_first s; x_slots := x_slots s; x_grams := x_grams s; x_rel := x_rel s; x_out := l :: x_out s |}.
+     x_first := x_first s; x_rank := x_rank s; x_slots := x_slots s; x_grams := x_grams s; x_rel := x_rel s; x_out := l :: x_out s |}.
 
 Definition with_cur (s : xstate) (slot : N) (t : tables) (c : cert) : xstate :=
   {| x_ptab := x_ptab s; x_slot := slot; x_cur := t; x_cert := c; x_items := x_items s;
-     x_first := x_first s; x_slots := x_slots s; x_grams := x_grams s; x_rel := x_rel s; x_out := x_out s |}.
+     x_first := x_first s; x_rank := x_rank s; x_slots := x_slots s; x_grams := x_grams s; x_rel := x_rel s; x_out := x_out s |}.
 
 Definition with_items (s : xstate) (i : icert) : xstate :=
   {| x_ptab := x_ptab s; x_slot := x_slot s; x_cur := x_cur s; x_cert := x_cert s; x_items := i;
-     x_first := x_first s; x_slots := x_slots s; x_grams := x_grams s; x_rel := x_rel s; x_out := x_out s |}.
+     x_first := x_first s; x_rank := x_rank s; x_slots := x_slots s; x_grams := x_grams s; x_rel := x_rel s; x_out := x_out s |}.
 
 Definition with_first (s : xstate) (f : fcert) : xstate :=
   {| x_ptab := x_ptab s; x_slot := x_slot s; x_cur := x_cur s; x_cert := x_cert s; x_items := x_items s;
-     x_first := f; x_slots := x_slots s; x_grams := x_grams s; x_rel := x_rel s; x_out := x_out s |}.
+     x_first := f; x_rank := x_rank s; x_slots := x_slots s; x_grams := x_grams s; x_rel := x_rel s; x_out := x_out s |}.
+
+Definition with_rank (s : xstate) (r : pcert) : xstate :=
+  {| x_ptab := x_ptab s; x_slot := x_slot s; x_cur := x_cur s; x_cert := x_cert s; x_items := x_items s;
+     x_first := x_first s; x_rank := r; x_slots := x_slots s; x_grams := x_grams s; x_rel := x_rel s; x_out := x_out s |}.
 
 Definition with_ptab (s : xstate) (p : nmap production) : xstate :=
   {| x_ptab := p; x_slot := x_slot s; x_cur := x_cur s; x_cert := x_cert s; x_items := x_items s;
-     x_first := x_first s; x_slots := x_slots s; x_grams := x_grams s; x_rel := x_rel s; x_out := x_out s |}.
+     x_first := x_first s; x_rank := x_rank s; x_slots := x_slots s; x_grams := x_grams s; x_rel := x_rel s; x_out := x_out s |}.
 
 Definition with_slots (s : xstate) (m : nmap (tables * cert * icert)) : xstate :=
   {| x_ptab := x_ptab s; x_slot := x_slot s; x_cur := x_cur s; x_cert := x_cert s; x_items := x_items s;
-     x_first := x_first s; x_slots := m; x_grams := x_grams s; x_rel := x_rel s; x_out := x_out s |}.
+     x_first := x_first s; x_rank := x_rank s; x_slots := m; x_grams := x_grams s; x_rel := x_rel s; x_out := x_out s |}.
 
 Definition with_grams (s : xstate) (m : nmap grammar) : xstate :=
   {| x_ptab := x_ptab s; x_slot := x_slot s; x_cur := x_cur s; x_cert := x_cert s; x_items := x_items s;
-     x_first := x_first s; x_slots := x_slots s; x_grams := m; x_rel := x_rel s; x_out := x_out s |}.
+     x_first := x_first s; x_rank := x_rank s; x_slots := x_slots s; x_grams := m; x_rel := x_rel s; x_out := x_out s |}.
 
 Definition with_rel (s : xstate) (r : rel) : xstate :=
   {| x_ptab := x_ptab s; x_slot := x_slot s; x_cur := x_cur s; x_cert := x_cert s; x_items := x_items s;
-     x_first := x_first s; x_slots := x_slots s; x_grams := x_grams s; x_rel := r; x_out := x_out s |}.
+     x_first := x_first s; x_rank := x_rank s; x_slots := x_slots s; x_grams := x_grams s; x_rel := r; x_out := x_out s |}.
 
 Definition mask_of (l : list N) : N := fold_left (fun m b => N.lor m (bit b)) l 0.
 
@@ -226,6 +233,13 @@ Definition step (s : xstate) (line : list N) : xstate :=
       match nget (x_grams s) g, nget (x_slots s) slot with
       | Some G, Some (T, _, Its) => with_first (emit s [22; g; slot; b2n (check_complete G T Its (x_first s))]) nempty
       | _, _ => emit s [0; 22; g; slot]
+      end
+  | [23; X; r] => with_rank s (nset (x_rank s) X r)
+  | [24; g; slot] =>
+      match nget (x_grams s) g, nget (x_slots s) slot with
+      | Some G, Some (T, _, Its) =>
+          with_rank (emit s [24; g; slot; b2n (check_early G T Its); b2n (check_productive G (x_rank s))]) nempty
+      | _, _ => emit s [0; 24; g; slot]
       end
   | tag :: _ => emit s [0; tag]
   | [] => s
